@@ -167,10 +167,19 @@ def history_case(rng, mode, idx, maxlen):
 
     def near(k):
         """a value related to interval k: a bound, just inside/outside, or anything"""
-        if k in ivs and rng.random() < 0.7:
+        if k in ivs and rng.random() < 0.8:
             lo, hi = ivs[k]
             fin = [b for b in (lo, hi) if abs(b) != INF]
             x = rng.random()
+            if fin and rng.random() < 0.3:
+                # deliberately outside, on the side of a finite bound
+                b0 = rng.choice(fin)
+                side = -1 if (b0 == lo and lo <= hi) else 1
+                if vs.kind == "rat-grid":
+                    return b0 + side * 0.25 * rng.randint(1, 6)
+                if vs.kind == "rat-tiny":
+                    return b0 + side * (2.0 ** -50) * 50 * rng.randint(1, 4)
+                return b0 + side * rng.choice([1e-12, 1e-9, 1e-3, 0.5, 3.0, rng.uniform(0, 50)])
             if fin and x < 0.3:
                 return rng.choice(fin)
             if fin and x < 0.5 and mode == "flt":
